@@ -57,6 +57,11 @@ for W in (8, 16, 32, 64):
                 route="finite", tier=tier, timeout=300, backend="kissat",
                 cbmc=["--unwind", str(unwind), "--unwinding-assertions"], **kw)
 
+# ------------------------------------------------------------------ rung 0: exhaustive native enumeration at W = 16, portable build
+job("r0.native.bn_digit_mult__int.w16.port", "native_digit16.c", ["BN_DIGIT_BIT_CNT=16", "BN_BIT_LEN=64", "VF_FN_mult"],
+    mode="native", functions=["bn_digit_mult__int"], route="finite", tier="thorough", timeout=900,
+    bound="exhaustive native enumeration of all 2^32 operand pairs at W = 16, portable body (not a deductive obligation)")
+
 # ------------------------------------------------------------------ rung 1 (a): digit arrays, unbounded safety
 def loops_file(key, fns):
     path = os.path.join(VERIF, "loops", "bn_%s.json" % key)
@@ -73,6 +78,8 @@ SAFETY_ASSUME = ["unbounded digit-array jobs: arrays are exact-size heap objects
 for W in (8, 16, 32, 64):
     tier = "quick" if W in (8, 64) else "thorough"
     for fn, lf in R1A.items():
+        if fn in ("l_shift", "r_shift"):
+            continue  # memmove/memset with symbolic length: unbounded safety does not close (not_covered); value jobs below
         full = "bn_digits_" + fn
         kw = {}
         if lf:
@@ -94,8 +101,10 @@ def memcfg(W, nbytes, uses_mem):
     return ([], [], [])
 
 USES_MEM = {"assign_zero", "l_shift", "r_shift", "sub__int", "sub"}
-for W, nd, tier in ((8, 4, "quick"), (64, 4, "quick"), (16, 4, "thorough"), (32, 4, "thorough"), (8, 8, "thorough")):
+for W, nd, tier in ((8, 4, "quick"), (64, 4, "quick"), (64, 2, "quick"), (16, 4, "thorough"), (32, 4, "thorough"), (8, 8, "thorough")):
     for fn, lf in R1A.items():
+        if nd == 2 and fn not in ("l_shift", "r_shift"):
+            continue
         full = "bn_digits_" + fn
         d, uw, asm = memcfg(W, nd * W // 8, fn in USES_MEM)
         job("r1b.%s.value.w%d.n%d" % (full, W, nd), "digits.c",
@@ -111,8 +120,10 @@ R1C = ["init", "calc_digits", "update", "init_digits__int", "update_digits__int"
        "assign", "assign_init", "assign_zero", "assign_2exp", "assign_digit", "l_shift", "r_shift",
        "and", "or", "xor", "add_digit", "add", "sub_digit", "sub"]
 R1C_MEM = {"assign", "assign_init", "l_shift", "r_shift", "sub"}
-for W, nd, tier in ((8, 4, "quick"), (64, 4, "quick"), (16, 4, "thorough"), (32, 4, "thorough"), (8, 8, "thorough")):
+for W, nd, tier in ((8, 4, "quick"), (64, 4, "quick"), (64, 2, "quick"), (16, 4, "thorough"), (32, 4, "thorough"), (8, 8, "thorough")):
     for fn in R1C:
+        if nd == 2 and fn not in ("l_shift", "r_shift"):
+            continue
         full = "bn_" + fn
         d, uw, asm = memcfg(W, nd * W // 8, fn in R1C_MEM)
         job("r1c.%s.w%d.n%d" % (full, W, nd), "bn1.c",
@@ -176,9 +187,9 @@ for nd, tier in ((2, "thorough"), (3, "thorough")):
     job("r2.bn_div.w%d.n%d" % (W, nd), "bn2.c",
         cfg(W, True, bitlen=W * nd, extra=["VF_FN_div", "VF_BN_ASSUME_DISTRIB"] + vb(W * nd)),
         enforce=["bn_div"], replace=DIV_REPL, functions=["bn_div"], route="bounded", backend="kissat",
-        bound="W = 8, capacity %d digits, all four remainder forms (separate object, NULL, remainder == bn, bn == d); quotient-correction loop unwound 6 times with unwinding assertion; callees replaced by their contracts" % nd,
+        bound="W = 8, capacity %d digits, all four remainder forms (separate object, NULL, remainder == bn, bn == d); loops unwound 10 times with unwinding assertion; callees replaced by their contracts" % nd,
         assumptions=[DISTRIB_ASSUME], tier=tier, timeout=1200,
-        cbmc=["--unwind", "7", "--unwindset", "__CPROVER_contracts_write_set_check_assigns_clause_inclusion.0:40,__CPROVER_contracts_write_set_check_frees_clause_inclusion.0:40", "--unwinding-assertions", "--object-bits", "10"])
+        cbmc=["--unwind", "10", "--unwindset", "__CPROVER_contracts_write_set_check_assigns_clause_inclusion.0:40,__CPROVER_contracts_write_set_check_frees_clause_inclusion.0:40", "--unwinding-assertions", "--object-bits", "10"])
 
 # ------------------------------------------------------------------ rung 2: recodings (plain, monolithic, bounded scalars)
 for key, full in (("naf", "bn_calc_naf"), ("jsf", "bn_calc_jsf"), ("combo", "bn_combo_column_get")):
@@ -186,7 +197,7 @@ for key, full in (("naf", "bn_calc_naf"), ("jsf", "bn_calc_jsf"), ("combo", "bn_
         if key == "combo" and bits == 16:
             continue
         k = bits + 4
-        us = "harness.0:60,harness.1:60,harness.2:60,harness.3:60,bn_calc_naf.0:%d,bn_calc_naf.1:%d,bn_calc_jsf.0:%d,bn_calc_jsf.1:%d,bn_calc_jsf.2:%d,vf_small_bits.0:34,vf_small_val.0:6" % (k, k, k, k, k)
+        us = "harness.0:60,harness.1:60,harness.2:60,harness.3:60,bn_calc_naf.0:%d,bn_calc_naf.1:%d,bn_calc_jsf.0:%d,bn_calc_jsf.1:%d,bn_calc_jsf.2:%d,vf_small_bits.0:34,vf_small_val.0:6,bn_combo_column_get.0:12" % (k, k, k, k, k)
         job("r2.%s.w8.b%d" % (full, bits), "recode.c", cfg(8, True, bitlen=bits + 8, extra=["VF_FN_" + key, "VF_RC_BITS=%d" % bits]),
             mode="plain", functions=[full], route="bounded",
             bound="W = 8, scalars of at most %d bit (every value incl. zero, stale digits, symbolic array size%s); whole function executed, loops fully unwound" % (bits, ", window 2..5" if key == "naf" else ""),
@@ -226,10 +237,80 @@ for key, full, repl, nonlinear in R3:
             tier=tier, timeout=600, backend="kissat" if nonlinear else "sat",
             cbmc=["--unwind", str(nd + 2), "--unwindset", "__CPROVER_contracts_write_set_check_assigns_clause_inclusion.0:40,__CPROVER_contracts_write_set_check_frees_clause_inclusion.0:40", "--unwinding-assertions", "--object-bits", "10"])
 
+# ------------------------------------------------------------------ rung 3, loop functions: safety / error propagation / domain (modular)
+CL = "__CPROVER_contracts_write_set_check_assigns_clause_inclusion.0:40,__CPROVER_contracts_write_set_check_frees_clause_inclusion.0:40"
+R3L = [
+ ("mod_exp_digit", "bn_mod_exp_digit", ["bn_assign_digit", "bn_mod_mult", "bn_assign_init"], 70, "finite",
+  "loop over the 64 bits of the size_t exponent (type bound), fully unwound"),
+ ("mod_exp", "bn_mod_exp", ["bn_assign_digit", "bn_mod_mult", "bn_assign_init", "bn_calc_bits", "bn_is_bit_set"], 0, "bounded",
+  "exponent of at most BN_BIT_LEN = 16 bit (loop over its bits fully unwound)"),
+ ("mod_div", "bn_mod_div", ["bn_assign_init", "bn_mod_inv_bin", "bn_mod_mult"], 4, "finite", ""),
+]
+for key, full, repl, uw, route, bound in R3L:
+    W, nd = 8, 2
+    job("r3.%s.safety.w%d.n%d" % (full, W, nd), "bn3.c",
+        cfg(W, True, bitlen=W * nd, extra=["VF_FN_" + key] + vb(W * nd)),
+        enforce=[full], replace=repl, functions=[full], route=route, bound=bound, backend="kissat",
+        tier="thorough", timeout=900,
+        cbmc=["--unwind", str(uw or (W * nd + 3)), "--unwindset", CL, "--unwinding-assertions", "--object-bits", "10"])
+
+# ------------------------------------------------------------------ tier overrides from measured times (quick: <= ~90 s each on an idle 16-core box)
+import re
+TIER_OVERRIDE = [
+    (r"^r1a\.bn_digits_(add|sub|sub__int)\.safety\.w64$", "thorough"),
+    (r"^r1[bc]\..*_(l|r)_shift(\.value)?\.w64\.n4$", "thorough"),
+    (r"^r0\.bn_digit_div__int(_short)?\.w64\.", "thorough"),
+    (r"^r2\.bn_calc_(naf|jsf)\.", "thorough"),
+    (r"^r2\.bn_mult_digit\.w8\.n3$", "quick"),
+    (r"^r2\.bn_div\.w8\.n2$", "quick"),
+]
+for j in jobs:
+    for rx, t in TIER_OVERRIDE:
+        if re.search(rx, j["name"]):
+            j["tier"] = t
+    if j.get("tier", "quick") == "quick":
+        j["timeout"] = max(j.get("timeout", 300), 600)
+
+EXPLANATION = (
+ "include/math/big_num.h is verified as a ladder of CBMC code contracts written on redeclarations that follow the "
+ "unmodified header (contracts/bn*.h; specs/bn_spec.h: wf(bn), val(bn) as unsigned __CPROVER_bitvector[2*BN_BIT_LEN+64]). "
+ "Rung 0 (r0.*): digit primitives over their whole input space (route finite) for W in {8,16,32,64}, BN_CC_MULL_DIV on and off. "
+ "Rung 1: digit-array functions - unbounded memory safety / frame / termination / carry,borrow in {0,1} with loop contracts "
+ "(r1a.*), value contracts val' == (val +- n) mod 2^(W*count) etc. by full unwinding at fixed capacities (r1b.*); bn_t level "
+ "structural, bitwise, additive functions with symbolic count, digits, STALE digits above `digits` and harness-chosen aliasing "
+ "(r1c.*); import/export be/le x bin/hex against the number the bytes/text denote (r1d.*). "
+ "Rung 2 (r2.*): multiplicative layer, modular (callees replaced by their contracts), W = 8 and <= 4 digits: digit-array "
+ "multiply-accumulate functions against the sum of per-digit products, bn_mult / bn_square / bn_mult_digit / bn_div against "
+ "product, quotient and remainder; NAF / JSF / comb column by executing the whole function for every scalar up to 8 (16) bits. "
+ "Rung 3 (r3.*): bn_mod, bn_mod_add/sub/mult/mult_digit/square/reduce value contracts proved modularly (bn_mod_add at the shipped "
+ "W=64 x 22-digit configuration too); bn_mod_exp(_digit), bn_mod_div: return-code set, domain checks, error propagation, "
+ "well-formed result. Every harness ends in a reachability canary; failing obligations that were confirmed natively on the "
+ "real code are listed in known_findings.d/C01.json with patches in proposed_fixes/bignum-*.diff; the ledger is generated from "
+ "the tree that contains those patches.")
+ASSUMPTIONS = [
+ "CBMC 6.11 C semantics for x86-64 LP64 little endian; contracts are proved at source level: the 'compiler and optimisation level' quantifier of C01 is addressed only through UB-freedom (bounds, pointer, pointer-overflow, shift, signed-overflow, div-by-zero checks are on in every job)",
+ "pointers passed to bn_* functions are non-NULL valid objects (the NULL -> EINVAL branches of BN_POINTER_CHK_EINVAL are not exercised); two bn_t operands are the same object or do not overlap",
+ "shift domain taken from the call sites: bn_l_shift bits < W*count, bn_r_shift bits < W*digits (bn_digits_l/r_shift bits < W*count); outside it the memmove length / loop bound underflows (DESIGN F2) - every in-tree call site was checked to establish it",
+ "value contracts of digit-array functions require a[0] to be readable even for count == 0 (snapshot mechanism of __CPROVER_old); every in-tree call site passes bn->num or &bn->num[j]",
+ "bn_mod_add / bn_mod_sub value clauses: operands already reduced (bn, n < m) as at the call sites in elliptic_curve.h",
+ "bn_mod_reduce: modulus >= 2",
+]
+NOT_COVERED = [
+ "portable bn_digit_mult__int (no BN_CC_MULL_DIV), general Knuth-M path, W >= 16: undecided by MiniSat, CaDiCaL, kissat, z3, cvc5 (> 300 s each, also with a term-aligned spec); W = 8 is proved, W = 16 is enumerated natively (all 2^32 pairs, reported as exhaustive_native, not as a deductive obligation), W = 32/64 shortcut paths (0, 1, power of two) only",
+ "bn_digit_div__int / bn_digit_div__int_short: proved at W = 8 (both builds); the W = 16/32/64 jobs are registered in the thorough tier and reported UNDECIDED when the back end does not finish (division/multiplication miter)",
+ "128-bit digits (no double-width type): not built",
+ "capacities above the verified ones: value contracts are proved for <= 4 digits (8 digits at W=8 in the thorough tier); the unbounded jobs prove memory safety / frame / termination / carry range only; bn_digits_l_shift / bn_digits_r_shift have NO unbounded job (memmove/memset with symbolic length: > 240 s on every attempt, also with arrays capped at 64 digits) - only the bounded value jobs",
+ "intra-object overflow: cbmc's bounds check for a member array reached through a pointer is object-granular, so an index such as num[(size_t)-1] that stays inside the bn_t object is not flagged (bn_sub with both operands zero reads num[digits - 1] with digits == 0: value unused, not detected by any obligation, not confirmed by UBSan either)",
+ "rung 2 is W = 8 only and <= 4 digits (bn_mult, bn_div <= 3 digits); the digit-array multiply functions are proved against the sum of per-digit products, the closed product form used by their callers rests on the distributivity identity listed in those jobs' assumptions",
+ "bn_exp_digit, bn_digit_egcd, bn_mod_small, bn_mod_legendre: no contract",
+ "rung 3 loop functions: bn_mod_inv_bin, bn_gcd, bn_gcd_bin, bn_sqrt1, bn_mod_sqrt have no proved contract (not attempted for lack of time; bn_mod_inv_bin's domain/return-code contract is only USED, as an assumption, by the bn_mod_div job); bn_mod_exp(_digit) value (bn^e mod m) not proved, only e in {0,1,2}",
+ "import/export digit-array level (bn_digits_import_*/export_*) unbounded safety jobs: not registered (the bn_t-level jobs execute those bodies for buffers <= 8..18 bytes); export hex at W=64 runs out of memory (12 GB) in symbolic execution",
+ "outside the claim as stated by the property: Barrett reduction, bn_egcd, bn_mod_inv3, bn_sqrt4 (and the non-selected bn_sqrt2/3/5, bn_mod_inv1/2, bn_mod_inv_mont, bn_mod_div_mont)",
+]
 json.dump({
     "property": "C01", "level": "proof",
     "defaults": {"tier": "quick", "mode": "dfcc", "timeout": 300},
-    "explanation": "",
-    "assumptions": [], "not_covered": [],
+    "explanation": EXPLANATION,
+    "assumptions": ASSUMPTIONS, "not_covered": NOT_COVERED,
     "jobs": jobs}, open(os.path.join(VERIF, "obligations", "C01.json"), "w"), indent=1)
 print("%d jobs" % len(jobs))
